@@ -58,6 +58,21 @@ func rsOps() []rsOp {
 		{"fund-ref-r", create(func() ledger.RunScript { rs := fund(); rs.Reference = "r"; return rs }, command.Parameters{})},
 		{"spend-ref-r", create(func() ledger.RunScript { rs := spend(); rs.Reference = "r"; return rs }, command.Parameters{})},
 		{"preview-spend", create(spend, command.Parameters{DryRun: true})},
+		// the earliest timestamp the parser lets through
+		{"fund-year0", create(func() ledger.RunScript {
+			rs := fund()
+			if t, err := ledger.ParseTime("0000-06-01T00:00:00Z"); err == nil {
+				rs.Timestamp = t
+			}
+			return rs
+		}, command.Parameters{})},
+		// a second asset on accounts that exist already
+		{"fund-eur", create(func() ledger.RunScript {
+			return ledger.TxToScriptData(ledger.TransactionData{Postings: ledger.Postings{ledger.NewPosting("world", "bank", "EUR", big.NewInt(10))}}, false)
+		}, command.Parameters{})},
+		{"spend-eur", create(func() ledger.RunScript {
+			return ledger.TxToScriptData(ledger.TransactionData{Postings: ledger.Postings{ledger.NewPosting("bank", "alice", "EUR", big.NewInt(7))}}, false)
+		}, command.Parameters{})},
 		{"fund-ref-r-postdated", create(func() ledger.RunScript {
 			rs := fund()
 			rs.Reference = "r"
@@ -80,6 +95,13 @@ func rsOps() []rsOp {
 		}, command.Parameters{})},
 		{"meta-cfg", func(e *engineh.Engine) string {
 			return errResp(e.Cmd.SaveMeta(e.Ctx(), command.Parameters{}, ledger.MetaTargetTypeAccount, "cfg", metadata.Metadata{"dst": "dave"}))
+		}},
+		// a metadata body of null (POST .../metadata with the body null decodes to a nil map without error)
+		{"meta-cfg-null", func(e *engineh.Engine) string {
+			return errResp(e.Cmd.SaveMeta(e.Ctx(), command.Parameters{}, ledger.MetaTargetTypeAccount, "cfg", nil))
+		}},
+		{"meta-tx-0-null", func(e *engineh.Engine) string {
+			return errResp(e.Cmd.SaveMeta(e.Ctx(), command.Parameters{}, ledger.MetaTargetTypeTransaction, big.NewInt(0), nil))
 		}},
 		{"meta-tx-0[k]", func(e *engineh.Engine) string {
 			return errResp(e.Cmd.SaveMeta(e.Ctx(), command.Parameters{IdempotencyKey: "k"}, ledger.MetaTargetTypeTransaction, big.NewInt(0), metadata.Metadata{"m": "1"}))
@@ -194,7 +216,8 @@ func realStoreConformance(rep *evid.Reporter, keyPrefix string) (histories, step
 	preamble := []int{0, 1}
 	nh := len(hists)
 	for _, h := range hists[:nh] {
-		if len(h) <= 3 {
+		// (quick tier: up to two operations, or three with a restart in the middle; thorough: up to three)
+		if len(h) <= 2 || (len(h) == 3 && (h[1] == -1 || rep.Thorough())) {
 			hists = append(hists, append(append([]int{-2}, preamble...), h...))
 		}
 	}
@@ -218,7 +241,13 @@ func realStoreConformance(rep *evid.Reporter, keyPrefix string) (histories, step
 		er := engineh.StartOn(g1, nil, nil)
 		em2 := engineh.Start(memstore.New(), nil)
 		er2 := engineh.StartOn(g2, nil, nil)
-		defer func() { em2.Stop(); er2.Stop() }()
+		stopAll := true
+		defer func() {
+			if stopAll {
+				em2.Stop()
+				er2.Stop()
+			}
+		}()
 		var names []string
 		diverged := false
 		for i, o := range h {
@@ -229,7 +258,24 @@ func realStoreConformance(rep *evid.Reporter, keyPrefix string) (histories, step
 			names = append(names, name)
 			replay := map[string]interface{}{"engine": "realstore", "history": names}
 			if o < 0 {
-				em, er = em.Restart(), er.Restart()
+				restart := func(e *engineh.Engine) (ne *engineh.Engine, failed string) {
+					defer func() {
+						if p := recover(); p != nil {
+							ne, failed = e, fmt.Sprint(p)
+						}
+					}()
+					return e.Restart(), ""
+				}
+				var fm, fr string
+				em, fm = restart(em)
+				er, fr = restart(er)
+				if fm != fr {
+					// (an engine whose restart failed is stopped already: nothing more is run or stopped on either side)
+					stopAll = false
+					rep.Violation(keyPrefix+"realstore-restart", fmt.Sprintf("restart after %v: on the stand-in store %q, on the real store %q (the engine cannot be initialised from what the store holds)", names[:len(names)-1], fm, fr), replay)
+					diverged = true
+					break
+				}
 				continue
 			}
 			run := func(e *engineh.Engine) (out string) {
@@ -273,8 +319,10 @@ func realStoreConformance(rep *evid.Reporter, keyPrefix string) (histories, step
 				break
 			}
 		}
-		em.Stop()
-		er.Stop()
+		if stopAll {
+			em.Stop()
+			er.Stop()
+		}
 		if diverged {
 			return
 		}
